@@ -302,6 +302,18 @@ def true_atoms(t, pol):
     return [pos_atom(t0, pol)]
 
 
+def region_atoms(f, tt, nid):
+    """every atom that is true whenever control reaches the element (all controlling branch edges, conjunctions split,
+    negative edges turned into the positive comparison): the guard-clause and the if/else form give the same atoms"""
+    out = []
+    for dep in f.region(nid):
+        a = f.branch_atom(dep[0])
+        if a is None:
+            continue
+        out.extend(true_atoms(tt.t(a), dep[1] == 0))
+    return out
+
+
 def subst(t, sub):
     if t in sub:
         return sub[t]
